@@ -354,6 +354,7 @@ Theorem wake_kick_force_law n nb it (wp old : Z -> Qc) (t xc : Qc) (D : Z -> Qc)
   suppQ r a bb ->
   row_fits n it ow a bb ->
   row_fits n it orf (a - shift_hi n it ow) (bb - shift_lo n it ow) ->
+  rnd32 (xc - Qcz x)%Qc = (xc - Qcz x)%Qc ->
   rnd32 (t * (xc - Qcz x))%Qc = (t * (xc - Qcz x))%Qc ->
   rnd32 (Qcz (n / 2) + wp x)%Qc = (Qcz (n / 2) + wp x)%Qc ->
   rnd32 (Qcz (n / 2) + t * (xc - Qcz x))%Qc = (Qcz (n / 2) + t * (xc - Qcz x))%Qc ->
@@ -361,14 +362,14 @@ Theorem wake_kick_force_law n nb it (wp old : Z -> Qc) (t xc : Qc) (D : Z -> Qc)
   M0 n r' = M0 n r /\
   M1 n r' = (M1 n r + (t * (Qcz x - xc) - wp x) * M0 n r)%Qc.
 Proof.
-  intros Hv H2 Hn Hnb Hx ow orf r Hs F1 F2 R1 R2 R3 r'.
+  intros Hv H2 Hn Hnb Hx ow orf r Hs F1 F2 R0 R1 R2 R3 r'.
   destruct (wake_kick_force_law_eff n nb it wp old t xc D 0 x a bb Hv H2 Hn Hnb ltac:(lia) Hx
               Hs F1 F2) as (E & C0 & C1).
   change (0 * n + x) with x in *. split; [exact C0|].
   unfold r', ow, orf, r. rewrite C1.
   assert (Erf : rf_offsets n t xc x = (t * (xc - Qcz x))%Qc).
   { unfold rf_offsets. destruct (Z.leb_spec 0 x); destruct (Z.ltb_spec x n); cbn [andb]; try lia.
-    exact R1. }
+    rewrite R0. exact R1. }
   rewrite Erf. unfold eff_off. rewrite R2, R3. ring.
 Qed.
 
